@@ -223,7 +223,7 @@ Definition shrink_case (i r : sexp) : verdict :=
           | L [A "PANIC"; Q msg] =>
               match m with
               | SErr _ => VOk "panic-agree"
-              | SOk mp => VDiff (show (s_prog mp)) (show r)
+              | SOk mp => diff_window_b (show (s_prog mp)) (show r)
               end
           | _ =>
               match g_prog r with
@@ -238,7 +238,7 @@ Definition shrink_case (i r : sexp) : verdict :=
                       | SOk mp =>
                           if String.eqb (show (s_prog mp)) (show (s_prog rp))
                           then VOk ("input-outside-domain " ++ why)
-                          else VDiff (show (s_prog mp)) (show (s_prog rp))
+                          else diff_window_b (show (s_prog mp)) (show (s_prog rp))
                       end
                   | None =>
                   (* the executable property on the Rust output *)
